@@ -118,3 +118,26 @@ def replay(ctx, case):
         if k is None:
             raise
         ctx.violation(k, f"{type(e).__name__}: {e}"[:1500], case)
+
+
+FLIP = {"k": "dist", "name": "flip"}
+PROBE_KEY_COLLISION = {
+    "node": {"k": "scan", "n": 2, "g": {"k": "static", "n": 2, "stmts": [
+        {"addr": "p", "callee": {"k": "static", "n": 0, "stmts": [
+            {"addr": "a", "callee": FLIP, "args": [["prob", ["c", 0.0]]]},
+            {"addr": "b", "callee": FLIP, "args": [["prob", ["c", 0.0]]]}], "ret": ["v", 0]}, "args": []},
+        {"addr": "z", "callee": FLIP, "args": [["prob", ["c", 0.0]]]}],
+        "ret": ["pair", ["v", 0], ["v", 3]]}},
+    "args": [0.0, [0.0, 0.0]], "key": 5, "flag_repr": "arr", "idx_repr": "arr", "op": "simulate",
+}
+
+
+def probes(ctx):
+    """regression probe of the repaired defect `scan_iteration_key_collision` (joint frequencies of a scan
+    whose kernel calls a two-site function at its first site)"""
+    fails, what = False, ""
+    try:
+        check_case(PROBE_KEY_COLLISION, None, n1=20000)
+    except Violation as v:
+        fails, what = True, v.message[:300]
+    ctx.probe("scan_iteration_key_collision", fails, what)
